@@ -136,7 +136,7 @@ CHECKS["C01"] = dict(
           "content), mpas_dual_roundtrip, mpas_zeros_reindex (supplied tables carried over entrywise), esmf_roundtrip, exodus_roundtrip/"
           "exodus_count (any number/order of blocks), icon_roundtrip, geos_corners/geos_order/geos_count/geos_in_range/geos_cyclic, "
           "scrip_positions/scrip_nodes_nodup/scrip_in_range, vertices_positions, rings_positions (decoded corner positions = source positions, "
-          "padding only at the end), spec_pad/stdForm_pad (the result is C02's standard form), normLon_range/congr/idem, setRange_ok/"
+          "padding only at the end; scrip_positions covers the repeated-last-corner dialect: real corners then FILL, for faces whose last two corners differ), spec_pad/stdForm_pad (the result is C02's standard form), normLon_range/congr/idem, setRange_ok/"
           "setRange_congr over any ordered field with floor. Proved as-is counterexamples document the seven repaired reader defects. Tie: a "
           "differential run (~1500 sources quick, ~18000 thorough: in-memory datasets, NetCDF files re-opened by path, arrays, dicts, GeoJSON) "
           "in which the Lean predicate Readers.Spec is evaluated by the driver on the implementation's face_node_connectivity (node numbers "
@@ -145,8 +145,7 @@ CHECKS["C01"] = dict(
           "dtype, _FillValue, lon/lat ranges, n_node, carried-over centres/tables/areas are run-time assertions (test level)."),
     note=_TB + "Modelled, not verified: netCDF4/xarray decoding (_FillValue masking), geopandas/pyogrio parsing, NumPy astype/np.unique/reshape, "
          "float rounding of rad2deg and xyz->lonlat (positions compared with chord tolerance 1e-7). GEOS-CS reference orientation is the "
-         "lattice perimeter order. MPAS dual only for closed meshes of valence >= 3. Known finding: SCRIP repeated-last-corner padding is kept "
-         "as a corner. Sample files > 3600 faces: Spec on sampled chunks in the quick tier. The malformed-input stream of DESIGN §3 was not built.",
+         "lattice perimeter order. MPAS dual only for closed meshes of valence >= 3. Sample files > 3600 faces: Spec on sampled chunks in the quick tier. The malformed-input stream of DESIGN §3 was not built.",
     technique="Lean 4 theorems (per-dialect round trips, index arithmetic, ordered-field laws) over hand models + differential correspondence with Lean-evaluated spec",
 )
 
@@ -364,4 +363,27 @@ CHECKS["C10"] = dict(
          "uxarray's own ops are generated only where the model defines them (one grid dimension, last; no coordinate along it; not on "
          "sub-grids) - raises outside that domain are counted, not judged.",
     technique="Lean 4 invariant theorem over an operation algebra with an observed constructor-path table + differential correspondence with Lean-evaluated step spec",
+)
+
+CHECKS["C15"] = dict(
+    text=("Lean model of the exporters (closed padded shells, antimeridian test, np.delete / np.where / fancy-index algebra, exclude / split / "
+          "ignore as polygon -> face maps, non-NaN filter, data re-indexing, the three export caches plus side tables as a state machine over a "
+          "heap of returned frames). Theorems for ALL grids, data and histories: antimeridian_iff (the test on the padded closed shell is true "
+          "exactly when some real cyclic boundary segment crosses), exclude_map, nan_filter_compose (under any projection the kept positions are "
+          "exactly the faces that neither cross nor project to NaN, with their own values, for frame, polygon and line exporters), split_map "
+          "(every piece maps to its face, all faces present, data follow), ignore_map, *_meets_spec (refinement to the decidable Spec the driver "
+          "evaluates), step_inv/run_inv/export_history_free_partial/export_meets_spec_after_any_history_partial (after any history of caching "
+          "conversions a conversion returns what its own arguments determine), returned_geometry_stable (full strength), "
+          "returned_object_stable_partial; proved as-is counterexamples for the repaired defects (fixes b2818bfe, 52b55a0e, 0dcb168c) and for the "
+          "known findings. Tie: the real public API on generated grids x 5 exporters x 3 policies x 4 projections x 2 engines x random and "
+          "directed histories; the Lean Spec is evaluated on every observed conversion, the Lean state machine is run on the same history, and "
+          "every step is compared with the same conversion on a new grid."),
+    note=_TB + "Partial: history-freedom is proved for histories of caching conversions (an un-cached conversion poisons the side tables: known "
+         "finding); object stability is proved for geometry in full and for columns unless a data-array frame conversion is served from the cache "
+         "(known finding); 'ignore' + projection and PolyCollection 'split' on clockwise faces are known findings. Which faces project to NaN, where "
+         "a projection's antimeridian lies and what antimeridian.fix_polygon returns are PARAMETERS; vertex matching against the mesh (float32 "
+         "tolerance 1e-4 deg / 8 m projected) and split-piece tiling (spherical area, 1e-3) are differential tests; project= / "
+         "exclude_nan_polygons= / exclude_antimeridian= are outside the quantifier and not generated. cartopy/antimeridian/shapely/pandas/"
+         "spatialpandas/matplotlib are external.",
+    technique="Lean 4 theorems over an executable model (index algebra + cache state machine) + differential correspondence with Lean-evaluated spec",
 )
